@@ -466,6 +466,9 @@ def run_flow(spec, root, helper):
         pre_key["pub"] = k["pub_der_hex"]
     ca_opts = {"chain_len": spec["chain_len"], "chain_sep": spec.get("chain_sep", ""), "chain_pad": spec.get("chain_pad", 0)}
     rules = None
+    if spec.get("chain_root") is not None:
+        # the CA includes its root: the last certificate of the chain (of 2 or more) is self-signed; a list: per issuance
+        ca_opts["chain_root"] = spec["chain_root"]
     if spec.get("chain_form"):
         ca_opts["chain_form"] = spec["chain_form"]
     if spec.get("attempts", 1) > 1:
@@ -487,6 +490,23 @@ def run_flow(spec, root, helper):
     obs = flow.run_scenario(root, [cert], ca_opts=ca_opts, rules=rules, timeout=40, helper=helper, pre=pre,
                             extra_global=extra_global, n_postop=spec.get("attempts", 1))
     return obs, crt_path, key_path, pre_key
+
+
+def chain_tail_kind(ctx, spec, body, helper, k, replay_obj):
+    """Generator measurement (no judgement of the implementation): what the LAST certificate of the served chain is
+    (`chain_root`: the CA includes its self-signed root). Measured on what was SERVED."""
+    end = "-----END CERTIFICATE-----"
+    blocks = [b + end + "\n" for b in body.decode(errors="replace").split(end) if "-----BEGIN CERTIFICATE-----" in b]
+    if not blocks:
+        return
+    c = helper.call({"op": "parse_cert", "pem": blocks[-1][blocks[-1].index("-----BEGIN CERTIFICATE-----"):]})
+    root = bool(c.get("self_signed")) and c.get("subject") is not None and c.get("subject") == c.get("issuer")
+    ctx.count("flow:chain-tail:%d-certificates-last-%s" % (len(blocks), "self-signed-root" if root else "intermediate"))
+    asked = spec.get("chain_root")
+    asked = asked[min(k - 1, len(asked) - 1)] if isinstance(asked, list) else asked
+    if bool(asked) and len(blocks) >= 2 and not root:
+        ctx.broke("generator", "a chain ending in the CA's self-signed root was asked for (chain_root) but the last "
+                  "certificate served is not self-signed", replay_obj)
 
 
 def judge_attempts(ctx, spec, obs, crt_path, key_path, helper):
@@ -521,6 +541,8 @@ def judge_attempts(ctx, spec, obs, crt_path, key_path, helper):
         sc, sk = snap.get(crt_path), snap.get(key_path)
         shrink = prev_len is not None and len(body) < prev_len
         prev_len = len(body)
+        if spec.get("chain_root") is not None:
+            chain_tail_kind(ctx, spec, body, helper, k, replay_obj)
         if spec.get("same_leaf") and prev_body is not None:
             # what this order's body is to the previous one (measured on what was SERVED, not on what was asked for)
             a = helper.call({"op": "cert_ders", "pem_hex": prev_body.hex()}).get("ders_hex") or [None]
@@ -586,6 +608,8 @@ def judge_flow(ctx, spec, obs, crt_path, key_path, pre_key, helper):
     ctx.count("flow:key=%s" % spec["key_type"])
     ctx.count("flow:%s" % ("renew-over-longer-files" if spec["renew_over_longer"] else "first-issuance"))
     body = served[-1]["served_cert"].encode()
+    if spec.get("chain_root") is not None:
+        chain_tail_kind(ctx, spec, body, helper, 1, replay_obj)
     cf, kf = flow.file_obs(crt_path), flow.file_obs(key_path)
     csr = helper.call({"op": "parse_csr", "csr_b64": fins[-1]["csr_b64"]})
     # Spec.C02.holds with data = the served body
@@ -665,6 +689,16 @@ def more_flow_specs(quick):
     for i, form in enumerate(FORMS):
         out.append(dict(base, key_type=KEY_TYPES[(i + 2) % len(KEY_TYPES)] if not quick or i % 3 else "ecdsa-p256",
                         chain_len=1 + i % 3, chain_form=form, renew_over_longer=bool(i % 2)))
+    # the CA includes its ROOT: the last certificate of the chain is self-signed (leaf + root, leaf + intermediates +
+    # root), first issuance and renewal over longer files, with and without kp_reuse, other separators / layouts
+    roots = [(2, False, False, "", None), (3, True, True, "", None), (4, False, True, "\n", None), (2, True, False, "", "crlf"),
+             (3, False, False, "", "no-final-nl"), (4, True, True, "", None)]
+    for i, (n, kp, over, sep, form) in enumerate(roots[:4] if quick else roots):
+        out.append(dict(base, key_type=["ecdsa-p256", "ed25519", "ecdsa-p384", "rsa2048"][i % 4], chain_len=n, chain_root=True,
+                        kp_reuse=kp, renew_over_longer=over, chain_sep=sep, chain_form=form))
+    # ... and in several issuances by one process: root / no root / root, chains of 4, 2 and 3 (and a chain of one)
+    out.append(dict(base, key_type="ecdsa-p256", attempts=3, chain_lens=[4, 2, 3], chain_root=[True, False, True]))
+    out.append(dict(base, key_type="ed25519", attempts=3, chain_lens=[2, 1, 4], chain_root=True, kp_reuse=True))
     # the download is answered with an error the client retries, the order polls say "processing" first
     for i, r in enumerate(("badNonce", "503", "ratelimited")):
         out.append(dict(base, key_type=["ecdsa-p384", "ed25519", "rsa2048"][i], chain_len=2 + i % 2, retry=r,
